@@ -10,9 +10,11 @@ WIDTH_BOUND = 1 << 48   # no string of 2^48 columns exists in a process
 
 
 class Contracts:
-    def __init__(self, fns):
+    def __init__(self, fns, default_pure=False, extra_inline=()):
         self.fns = fns
         self.used = {}
+        self.default_pure = default_pure
+        self.extra_inline = tuple(extra_inline)
         self.table = [
             (r"^longest_filter$|^Arg::is_positional$|^builder::arg::Arg::is_positional$", self.inline, "longest_filter, Arg::is_positional: INLINED from their own MIR (not a contract)"),
             # (regex on callee text, handler, description)
@@ -33,6 +35,24 @@ class Contracts:
         ]
 
     def lookup(self, callee):
+        for rx in self.extra_inline:
+            if re.search(rx, callee):
+                self.used["INLINED from its own MIR: " + callee] = self.used.get("INLINED from its own MIR: " + callee, 0) + 1
+                return self.inline
+        if re.search(r"(^|::|>::)then_some::<.*>$", callee):
+            self.used["bool::then_some(b, v): Some(v) iff b"] = self.used.get("bool::then_some(b, v): Some(v) iff b", 0) + 1
+            return self.then_some
+        r = self._lookup(callee)
+        if r is None and self.default_pure:
+            d = "any other callee: pure opaque value of its arguments, no effect on the scalars checked (spec mode)"
+            self.used[d] = self.used.get(d, 0) + 1
+            return self.pure
+        return r
+
+    def then_some(self, ex, callee, argv, argkey, ty, pc):
+        return ("option", argv[0][1], argv[1])
+
+    def _lookup(self, callee):
         for rx, h, desc in self.table:
             if re.search(rx, callee):
                 self.used[desc] = self.used.get(desc, 0) + 1
@@ -69,7 +89,7 @@ class Contracts:
         fn = self.fns.get(callee)
         if fn is None and "::" in callee:
             owner, method = callee.split("::")[-2:]
-            src = {"Arg": "clap_builder/src/builder/arg.rs"}.get(owner)
+            src = {"Arg": "clap_builder/src/builder/arg.rs", "ValueRange": "clap_builder/src/builder/range.rs"}.get(owner)
             cands = [f for n, f in self.fns.items() if src and n.endswith(">::" + method) and src in n]
             if len(cands) == 1:
                 fn = cands[0]
@@ -83,6 +103,23 @@ class Contracts:
             ob = dict(ob)
             ob["pc"] = list(pc) + ob["pc"]
             ex.obligations.append(ob)
+        if ty.strip().startswith("std::option::Option<") or ty.strip().startswith("Option<"):
+            # Option-returning callee: merge the return paths into (is_some, payload)
+            inner = re.match(r"^(?:std::option::)?Option<(.*)>$", ty.strip()).group(1)
+            some = ex.typed_fresh(f"is_some({callee}({argkey}))", "bool")
+            pay = ex.typed_fresh(f"payload({callee}({argkey}))", inner)
+            for rpc, val in sub.returns:
+                cond = "(and " + " ".join(rpc) + ")" if len(rpc) > 1 else (rpc[0] if rpc else "true")
+                if val[0] == "option":
+                    ex.ctx.assume(f"{callee}({argkey}) defined by its MIR", f"(=> {cond} (and (= {some[1]} {val[1]}) (=> {val[1]} (= {pay[1]} {val[2][1]}))))")
+                elif val[0] == "enum":
+                    if val[1] == "Some":
+                        ex.ctx.assume(f"{callee}({argkey}) defined by its MIR", f"(=> {cond} (and {some[1]} (= {pay[1]} {val[2][1]})))")
+                    else:
+                        ex.ctx.assume(f"{callee}({argkey}) defined by its MIR", f"(=> {cond} (not {some[1]}))")
+                else:
+                    raise Unsupported("inline: unsupported Option return shape")
+            return ("option", some[1], pay)
         res = ex.typed_fresh(f"{callee}({argkey})", ty)
         if res[0] not in ("bool", "bv"):
             raise Unsupported("inline of non-scalar function")
